@@ -525,4 +525,236 @@ theorem evalOpt_safe (fo : FOps) (env : Env) : ∀ o : Option Expr, ∀ x, evalO
 end
 
 
+/-! ## C10: folding preserves evaluation -/
+
+theorem isInt0_eq {e : Expr} (h : isInt0 e = true) : e = .int 0 := by
+  cases e <;> simp [isInt0] at h; subst h; rfl
+theorem isInt1_eq {e : Expr} (h : isInt1 e = true) : e = .int 1 := by
+  cases e <;> simp [isInt1] at h; subst h; rfl
+
+theorem Res.isInt_eq {r : Res} (h : r.isInt = true) : ∃ v, r = .val (.int v) := by
+  cases r with
+  | val v => cases v <;> simp [Res.isInt] at h; exact ⟨_, rfl⟩
+  | _ => simp [Res.isInt] at h
+
+theorem eval_bin (fo : FOps) (env : Env) (op : BinOp) (l r : Expr) :
+    eval fo .fixed env (.bin op l r) =
+      (eval fo .fixed env l).bind fun lv => (eval fo .fixed env r).bind fun rv => binop fo .fixed op lv rv := by
+  simp [eval]
+
+theorem foldConst_sound (fo : FOps) (env : Env) (op : BinOp) (l r e : Expr)
+    (h : foldConst fo op l r = some e) :
+    eval fo .fixed env e = eval fo .fixed env (.bin op l r) := by
+  unfold foldConst at h
+  split at h <;> (try split at h) <;> simp at h <;> subst h <;>
+    simp_all [eval, Res.bind, binop, iadd, isub, imul, idiv, irem]
+
+theorem foldIdent_sound (fo : FOps) (env : Env) (op : BinOp) (l r e x : Expr)
+    (h : foldIdent op l r = some (e, x)) (hx : (eval fo .fixed env x).isInt = true) :
+    eval fo .fixed env e = eval fo .fixed env (.bin op l r) := by
+  obtain ⟨v, hv⟩ := Res.isInt_eq hx
+  unfold foldIdent at h
+  split at h
+  · -- mul
+    split at h
+    · rename_i h0; have := isInt0_eq h0; subst this
+      simp at h; obtain ⟨rfl, rfl⟩ := h
+      simp [hv, eval, Res.bind, binop, imul, Int64.mul_zero]
+    · split at h
+      · rename_i h0; have := isInt0_eq h0; subst this
+        simp at h; obtain ⟨rfl, rfl⟩ := h
+        simp [hv, eval, Res.bind, binop, imul, Int64.zero_mul]
+      · split at h
+        · rename_i h1; have := isInt1_eq h1; subst this
+          simp at h; obtain ⟨rfl, rfl⟩ := h
+          simp [hv, eval, Res.bind, binop, imul, Int64.mul_one]
+        · split at h
+          · rename_i h1; have := isInt1_eq h1; subst this
+            simp at h; obtain ⟨rfl, rfl⟩ := h
+            simp [hv, eval, Res.bind, binop, imul, Int64.one_mul]
+          · simp at h
+  · -- add
+    split at h
+    · rename_i h0; have := isInt0_eq h0; subst this
+      simp at h; obtain ⟨rfl, rfl⟩ := h
+      simp [hv, eval, Res.bind, binop, iadd, Int64.add_zero]
+    · split at h
+      · rename_i h0; have := isInt0_eq h0; subst this
+        simp at h; obtain ⟨rfl, rfl⟩ := h
+        simp [hv, eval, Res.bind, binop, iadd, Int64.zero_add]
+      · simp at h
+  · -- sub
+    split at h
+    · rename_i h0; have := isInt0_eq h0; subst this
+      simp at h; obtain ⟨rfl, rfl⟩ := h
+      simp [hv, eval, Res.bind, binop, isub, Int64.sub_zero]
+    · simp at h
+  · -- div
+    split at h
+    · rename_i h1; have := isInt1_eq h1; subst this
+      simp at h; obtain ⟨rfl, rfl⟩ := h
+      simp [hv, eval, Res.bind, binop, idiv, Int64.div_one]
+    · simp at h
+  · simp at h
+
+theorem foldBinary_sound (fo : FOps) (idents : Bool) (env : Env) (op : BinOp) (l r : Expr)
+    (h : idents = true → unsafeAt fo env op l r = false) :
+    eval fo .fixed env (foldBinary fo idents op l r) = eval fo .fixed env (.bin op l r) := by
+  unfold foldBinary
+  split
+  · rename_i e he; exact foldConst_sound fo env op l r e he
+  · rename_i hc
+    split
+    · rename_i hi
+      have hu := h hi
+      split
+      · rename_i e x hfi
+        apply foldIdent_sound fo env op l r e x hfi
+        simp [unsafeAt, hc, hfi] at hu
+        exact hu
+      · rfl
+    · rfl
+
+theorem foldUnary_sound (fo : FOps) (env : Env) (op : UnOp) (e : Expr) :
+    eval fo .fixed env (foldUnary op e) = eval fo .fixed env (.un op e) := by
+  unfold foldUnary
+  split <;> simp [eval, Res.bind, unop, ineg]
+
+
+theorem foldBinary_not_ident (fo : FOps) (op : BinOp) (l r : Expr) :
+    isIdent (foldBinary fo false op l r) = false := by
+  unfold foldBinary
+  split
+  · rename_i e he
+    unfold foldConst at he
+    split at he <;> (try split at he) <;> simp at he <;> subst he <;> rfl
+  · simp [isIdent]
+
+theorem foldUnary_not_ident (op : UnOp) (e : Expr) : isIdent (foldUnary op e) = false := by
+  unfold foldUnary; split <;> rfl
+
+theorem fold_isIdent_false (fo : FOps) (e : Expr) (h : isIdent (fold fo false e) = true) : isIdent e = true := by
+  cases e with
+  | bin op l r => simp [fold, foldBinary_not_ident] at h
+  | un op e => simp [fold, foldUnary_not_ident] at h
+  | ident x => rfl
+  | _ => simp [fold, isIdent] at h
+
+theorem eval_call_nonident (fo : FOps) (env : Env) (f : Expr) (args : List Expr) (h : isIdent f = false) :
+    eval fo .fixed env (.call f args) = .none := by
+  cases f <;> simp [isIdent] at h <;> simp [eval]
+
+theorem evalMember_nonident (env : Env) (obj : Expr) (m : String) (h : isIdent obj = false) :
+    evalMember env obj m = .none := by
+  cases obj <;> simp [isIdent] at h <;> simp [evalMember]
+
+theorem fold_ident_of_isIdent (fo : FOps) (idents : Bool) (e : Expr) (h : isIdent e = true) :
+    fold fo idents e = e := by
+  cases e <;> simp [isIdent] at h; simp [fold]
+
+mutual
+theorem fold_sound (fo : FOps) (idents : Bool) (env : Env) :
+    ∀ e : Expr, (idents = true → unsafeIdent fo env e = false) →
+      eval fo .fixed env (fold fo idents e) = eval fo .fixed env e
+  | .bin op l r => fun hg => by
+    have hl := fold_sound fo idents env l (fun hi => by
+      have := hg hi; simp [unsafeIdent] at this; exact this.1.1)
+    have hr := fold_sound fo idents env r (fun hi => by
+      have := hg hi; simp [unsafeIdent] at this; exact this.1.2)
+    simp only [fold]
+    rw [foldBinary_sound fo idents env op _ _ (fun hi => by
+      have := hg hi; subst hi; simp [unsafeIdent] at this; exact this.2)]
+    simp only [eval, hl, hr]
+  | .un op e => fun hg => by
+    have he := fold_sound fo idents env e (fun hi => by have := hg hi; simpa [unsafeIdent] using this)
+    simp only [fold]; rw [foldUnary_sound]; simp only [eval, he]
+  | .call f args => fun hg => by
+    have ha := foldAll_sound fo idents env args (fun hi => by
+      have := hg hi; simp [unsafeIdent] at this; exact this.1.2)
+    simp only [fold]
+    by_cases hf : isIdent f = true
+    · rw [fold_ident_of_isIdent fo idents f hf]
+      cases f <;> simp [isIdent] at hf
+      simp only [eval, ha]
+    · have hf' : isIdent f = false := by simpa using hf
+      rw [eval_call_nonident fo env f args hf']
+      apply eval_call_nonident
+      cases idents with
+      | false =>
+        cases h : isIdent (fold fo false f) with
+        | false => rfl
+        | true => have := fold_isIdent_false fo f h; simp [hf'] at this
+      | true =>
+        have := hg rfl; simp [unsafeIdent, hf'] at this; exact this.2
+  | .arr xs => fun hg => by
+    have ha := foldAll_sound fo idents env xs (fun hi => by have := hg hi; simpa [unsafeIdent] using this)
+    simp only [fold, eval, ha]
+  | .map ks vs => fun hg => by
+    have ha := foldAll_sound fo idents env vs (fun hi => by have := hg hi; simpa [unsafeIdent] using this)
+    simp only [fold, eval, ha]
+  | .lambda ps b => fun _ => by simp [fold, eval]
+  | .ite c t e => fun hg => by
+    have hc := fold_sound fo idents env c (fun hi => by have := hg hi; simp [unsafeIdent] at this; exact this.1.1)
+    have ht := fold_sound fo idents env t (fun hi => by have := hg hi; simp [unsafeIdent] at this; exact this.1.2)
+    have he := fold_sound fo idents env e (fun hi => by have := hg hi; simp [unsafeIdent] at this; exact this.2)
+    simp only [fold, eval, hc, ht, he]
+  | .coalesce e d => fun hg => by
+    have he := fold_sound fo idents env e (fun hi => by have := hg hi; simp [unsafeIdent] at this; exact this.1)
+    have hd := fold_sound fo idents env d (fun hi => by have := hg hi; simp [unsafeIdent] at this; exact this.2)
+    simp only [fold, eval, he, hd]
+  | .range s e incl => fun hg => by
+    have hs := fold_sound fo idents env s (fun hi => by have := hg hi; simp [unsafeIdent] at this; exact this.1)
+    have he := fold_sound fo idents env e (fun hi => by have := hg hi; simp [unsafeIdent] at this; exact this.2)
+    simp only [fold, eval, hs, he]
+  | .member e m => fun hg => by
+    simp only [fold, eval]
+    by_cases hf : isIdent e = true
+    · rw [fold_ident_of_isIdent fo idents e hf]
+    · have hf' : isIdent e = false := by simpa using hf
+      rw [evalMember_nonident env e m hf']
+      apply evalMember_nonident
+      cases idents with
+      | false =>
+        cases h : isIdent (fold fo false e) with
+        | false => rfl
+        | true => have := fold_isIdent_false fo e h; simp [hf'] at this
+      | true =>
+        have := hg rfl; simp [unsafeIdent, hf'] at this; exact this.2
+  | .optMember e m => fun _ => by simp [fold, eval]
+  | .index e i => fun hg => by
+    have he := fold_sound fo idents env e (fun hi => by have := hg hi; simp [unsafeIdent] at this; exact this.1)
+    have hi' := fold_sound fo idents env i (fun hi => by have := hg hi; simp [unsafeIdent] at this; exact this.2)
+    simp only [fold, eval, he, hi']
+  | .slice e s en => fun hg => by
+    have he := fold_sound fo idents env e (fun hi => by have := hg hi; simp [unsafeIdent] at this; exact this.1.1)
+    have hs := foldOpt_sound fo idents env s (fun hi => by have := hg hi; simp [unsafeIdent] at this; exact this.1.2)
+    have hen := foldOpt_sound fo idents env en (fun hi => by have := hg hi; simp [unsafeIdent] at this; exact this.2)
+    simp only [fold, eval, he, hs, hen]
+  | .block ns vs res => fun _ => by simp [fold, eval]
+  | .null => fun _ => by simp [fold]
+  | .bool _ => fun _ => by simp [fold]
+  | .int _ => fun _ => by simp [fold]
+  | .float _ => fun _ => by simp [fold]
+  | .str _ => fun _ => by simp [fold]
+  | .dur _ => fun _ => by simp [fold]
+  | .ts _ => fun _ => by simp [fold]
+  | .ident _ => fun _ => by simp [fold]
+theorem foldAll_sound (fo : FOps) (idents : Bool) (env : Env) :
+    ∀ es : List Expr, (idents = true → unsafeIdentAll fo env es = false) →
+      evalAll fo .fixed env (foldAll fo idents es) = evalAll fo .fixed env es
+  | [] => fun _ => by simp [foldAll]
+  | e :: es => fun hg => by
+    have he := fold_sound fo idents env e (fun hi => by have := hg hi; simp [unsafeIdentAll] at this; exact this.1)
+    have hes := foldAll_sound fo idents env es (fun hi => by have := hg hi; simp [unsafeIdentAll] at this; exact this.2)
+    simp only [foldAll, evalAll, he, hes]
+theorem foldOpt_sound (fo : FOps) (idents : Bool) (env : Env) :
+    ∀ o : Option Expr, (idents = true → unsafeIdentOpt fo env o = false) →
+      evalOpt fo .fixed env (foldOpt fo idents o) = evalOpt fo .fixed env o
+  | Option.none => fun _ => by simp [foldOpt]
+  | some e => fun hg => by
+    have he := fold_sound fo idents env e (fun hi => by have := hg hi; simpa [unsafeIdentOpt] using this)
+    simp only [foldOpt, evalOpt, he]
+end
+
+
 end Varpulis.Expr
